@@ -79,7 +79,7 @@ CLAIMS = {
          "Semiring.solve, PatternedTensor.solve and multi_solve (both transpose values, random absent blocks, dense and patterned blocks, scalar to 2-d block shapes) "
          "and multi_mv are compared with an oracle that decides, per strongly connected block, whether the sum of A^n b converges (spectral radius <1, =1, >1, "
          "infinite entries; Viterbi non-positive / zero / positive cycles; Bool reachability) and takes the infinite value where it diverges; arguments must be "
-         "bit-identical afterwards. Entries at spectral radius exactly 1 with inexact intermediates may be inf or >=1e8. Sampled; <=12 unknowns.",
+         "bit-identical afterwards. Entries at spectral radius exactly 1 with inexact intermediates may be inf or >=1e8. Additionally all 2^9 present/absent patterns of a 3x3 block system x transpose x {Real,Bool} are enumerated exhaustively; PatternedTensor.solve operands may share PhysicalAxis objects. Otherwise sampled; <=12 unknowns.",
          "Trusted: vf/oracle_solve.py (self-checked against Kleene iteration), numpy.linalg, vf/gen_pattern.py, Hypothesis. Undecidable spectral radii are skipped and counted.",
          "DESIGN.md section 5, C09"),
  'C13': ("Hypothesis-generated pairs of typed patterned tensors (equal by construction, singly perturbed, random, shape-mismatched, self-vs-permutation) and MultiTensors vs. torch.equal/torch.allclose on independently interpreted dense twins",
